@@ -75,7 +75,16 @@ class SplitPrefixComplete(SplitPrefix):
             row = z3.Select(old, rest)
             exists.append(z3.And(z3.PrefixOf(z3.StringVal(k), s), RowSort.present(row),
                                  RowSort.prefixable(row)))
-        return [("some prefix+prefixable split exists => a prefix is returned",
+        da = z3.PrefixOf(z3.StringVal("da"), s)
+        rest2 = z3.SubString(s, z3.IntVal(2), z3.Length(s) - 2)
+        row2 = z3.Select(old, rest2)
+        deca = z3.And(da, RowSort.present(row2), RowSort.prefixable(row2))
+        return [("names not starting with 'da': some prefix+prefixable split exists => a prefix is returned",
+                 z3.Implies(z3.And(z3.Not(da), z3.Or(*exists)), p != z3.StringVal(""))),
+                ("names starting with 'da': the deca split (da + prefixable symbol) is found whenever it exists, "
+                 "whatever else the table holds",
+                 z3.Implies(deca, p == z3.StringVal("da"))),
+                ("some prefix+prefixable split exists => a prefix is returned",
                  z3.Implies(z3.Or(*exists), p != z3.StringVal("")))]
 
     def canary(self, it, a, r, old):
@@ -363,11 +372,16 @@ class GetUnitDataFromExpr(Contract):
             c = LookupUnitSymbol()
             s = e_str(e.term)
             it.assume(z3.Length(s) >= 1)        # sympy Symbols have non-empty names
-            return c.apply(it, {"symbol_str": s, "unit_symbol_lut": lut})
+            row = c.apply(it, {"symbol_str": s, "unit_symbol_lut": lut})
+            it.__dict__.setdefault("unit_data_results", []).append((e, row))
+            return row
         if it.branch(it.fresh_bool("unit_data_unparsable")):
             it.raise_("UnitParseError")
         sc = it.fresh_real("scale_of_expr")
         it.assume(sc == scale_of(e.term, lut.term))
         it.assume(sc > 0)
         d = SDim.fresh(it, "dim_of_expr")
+        # ghost: what the walk returned for this sub-expression (read by the structural
+        # postconditions of the Pow / Mul branches)
+        it.__dict__.setdefault("unit_data_results", []).append((e, (sc, d)))
         return (sc, d)
